@@ -136,6 +136,9 @@ func encSx(e *errorspb.EncodedError) Sx {
 		return L(Sym("wrap"), encSx(&w.Cause), A(w.Message), detailsSx(&w.Details), N(int64(w.MessageType)))
 	}
 	l := e.GetLeaf()
+	if l == nil {
+		return L(Sym("empty"))
+	}
 	cs := L()
 	for _, c := range l.MultierrorCauses {
 		cs.List = append(cs.List, encSx(c))
